@@ -237,6 +237,11 @@ def main(tier, only=None):
     untemplated = _CACHE.get(("untemplated", tier), [])
     results += loud_cases()
     results += random_cases()
+    # LAPACK-backed primitives with their option values (UPLO in every spelling NumPy accepts, full_matrices, ...):
+    # float64 probe, first order only here: each request is answered correctly or refused
+    from . import lapack_probe
+
+    results += [r for r in lapack_probe.run(runner.SEED) if r["key"].endswith("| vjp") or "np.geterr" in r["key"]]
     H = "vf.ch.h_ext"
     conds = [dict(module=H, func="_missing1", cases=6, what="missing rule raises, arity 1"), dict(module=H, func="_missing2", cases=72, what="missing rule raises, arity 2", timeout={"quick": 180, "thorough": 600}),
              dict(module=H, func="_missing3", cases=336, what="missing rule raises, arity 3", timeout={"quick": 240, "thorough": 900}), dict(module=H, func="_newbox_unregistered", cases=4, what="new_box on unregistered types raises TypeError")]
